@@ -195,7 +195,8 @@ for ne in (0, 1):
 add("so_destroy_step", ["C18"], SO_SRC, "h_sorter_destroy_step", unwind=6, timeout=600, safety="P",
     strength="B: mtbl_sorter_destroy with <= 2 buffered entries, <= 2 readers, possibly one chunk job still in flight", functions=SO_FUNCS, assumptions=SO_ASSUME, replay="c18")
 # ---------------------------------------------------------------- libmy/my_fileset.c reload (bounded)
-for nm, nl, tier, cut in (("myfs_reload_step", 2, "quick", True), ("myfs_reload_grow2", 2, "thorough", False), ("myfs_reload_grow3", 3, "thorough", False)):
+# the variants without the growth cut point ("myfs_reload_grow2/3": real vector growth, realloc by its ISO C contract) did not finish in 40 minutes and are not registered (DESIGN.md section 10)
+for nm, nl, tier, cut in (("myfs_reload_step", 2, "quick", True),):
     add(nm, ["C07", "C18"], ["tu/myfs_step.c"], "h_myfs_reload_step", unwind=10, timeout=900 if cut else 6000, slice=4, tier=tier, defines=[f"VG_MYFS_LINES={nl}"] + (["VG_MYFS_CUT"] if cut else []),
         strength=f"B: my_fileset_reload from an arbitrary loaded set of <= 2 of 3 one-letter tables, setfile of <= {nl} distinct lines, each table present or missing; " + ("resulting set of at most ONE entry (vector growth is a cut point)" if cut else "the new set grows through the real vector code (realloc by its ISO C contract)"),
         functions=["my_fileset_reload", "setfile_updated", "fetch_entry", "cmp_fileset_entry", "path_exists", "my_fileset_get", "ubuf_add_cstr", "ubuf_rstrip", "ubuf_cstr"] + ([] if cut else ["entry_vec_add (growth)"]),
